@@ -31,7 +31,7 @@ THEOREMS_PLANNED = [
 
 THEOREMS = ["placeholder_true"]
 
-PRE = "From SV Require Import Lib.Base C19.Model.\nLocal Open Scope N_scope."
+PRE = "From SV Require Import Lib.Base C19.Model."
 
 KEY_ATTR_EQ = "C19:attribute-eq-compares-prefix-with-name"
 
@@ -207,7 +207,8 @@ def plains(reg):
 
 
 def reaches(reg, x, p):
-    """p is x or below x through children lists"""
+    """p is x or below x through children lists, or x is above p through parent
+    links (a pruned node keeps its parent link): grafting x under p would tie a loop"""
     seen = set()
     stack = [reg.objs[x]]
     target = reg.objs[p]
@@ -219,7 +220,26 @@ def reaches(reg, x, p):
             continue
         seen.add(id(e))
         stack.extend(e.children)
+    e, n = target, 0
+    while e is not None and n <= len(reg.objs) + 1:
+        if e is reg.objs[x]:
+            return True
+        e = e.parent
+        n += 1
     return False
+
+
+def expanded_size(reg):
+    """number of nodes plain()/clone() would visit (shared nodes count once per path)"""
+    memo = {}
+
+    def size(e):
+        k = id(e)
+        if k not in memo:
+            memo[k] = 0          # a loop cannot occur (makes_cycle); stay finite anyway
+            memo[k] = 1 + sum(size(c) for c in e.children)
+        return memo[k]
+    return sum(size(e) for e in reg.objs if e.parent is None)
 
 
 def makes_cycle(reg, op):
@@ -268,10 +288,28 @@ def run_history(setup, steps):
     for op in steps:
         if not valid_ids(reg, op) or makes_cycle(reg, op):
             break
+        if op[0] in ("clone", "prune") and expanded_size(reg) > 120:
+            break
         res = apply_op(reg, op)
+        if expanded_size(reg) > 300:
+            break
         obs.append((res, dump(reg), plains(reg)))
         done.append(op)
     return obs, done
+
+
+def deltas(obs):
+    """per step: (result, count, changed cells, parentless ids, changed plain texts)"""
+    out = []
+    prev, prevp = [], {}
+    for res, cells, pl in obs:
+        d = [(i, c) for i, c in enumerate(cells) if i >= len(prev) or prev[i] != c]
+        dp = [(i, s) for i, s in pl if prevp.get(i) != s]
+        for i, s in dp:
+            prevp[i] = s
+        out.append((res, len(cells), d, [i for i, _ in pl], dp))
+        prev = cells
+    return out
 
 
 # ---------------------------------------------------------------------------
@@ -283,11 +321,11 @@ def c_ostr(s):
 
 
 def c_ids(l):
-    return "[]" if not l else "[" + ";".join(str(i) for i in l) + "]"
+    return "[]" if not l else "[" + ";".join(str(i) for i in l) + "]%N"
 
 
 def c_oid(i):
-    return "None" if i is None else "(Some %d)" % i
+    return "None" if i is None else "(Some %d%%N)" % i
 
 
 def c_nsq(ns):
@@ -309,51 +347,51 @@ def c_op(op):
             a = "(Some (NsPrefixed %s %s))" % (cstr(ns[1]), cstr(ns[2]))
         return "(ONew %s %s)" % (cstr(op[1]), a)
     if k == "append":
-        return "(OAppend %d %s)" % (op[1], c_ids(op[2]))
+        return "(OAppend %d%%N %s)" % (op[1], c_ids(op[2]))
     if k == "insert":
-        return "(OInsert %d %d %s)" % (op[1], op[2], cZ(op[3]))
+        return "(OInsert %d%%N %d%%N %s)" % (op[1], op[2], cZ(op[3]))
     if k == "remove":
-        return "(ORemove %d %d)" % (op[1], op[2])
+        return "(ORemove %d%%N %d%%N)" % (op[1], op[2])
     if k == "detach":
-        return "(ODetach %d)" % op[1]
+        return "(ODetach %d%%N)" % op[1]
     if k == "replace":
-        return "(OReplace %d %d %s)" % (op[1], op[2], c_ids(op[3]))
+        return "(OReplace %d%%N %d%%N %s)" % (op[1], op[2], c_ids(op[3]))
     if k == "detachChildren":
-        return "(ODetachChildren %d)" % op[1]
+        return "(ODetachChildren %d%%N)" % op[1]
     if k == "prune":
-        return "(OPrune %d)" % op[1]
+        return "(OPrune %d%%N)" % op[1]
     if k == "addattr":
-        return "(OAddAttr %d %s %s)" % (op[1], cstr(op[2]), cstr(op[3]))
+        return "(OAddAttr %d%%N %s %s)" % (op[1], cstr(op[2]), cstr(op[3]))
     if k == "set":
-        return "(OSet %d %s %s)" % (op[1], cstr(op[2]), cstr(op[3]))
+        return "(OSet %d%%N %s %s)" % (op[1], cstr(op[2]), cstr(op[3]))
     if k == "unset":
-        return "(OUnset %d %s)" % (op[1], cstr(op[2]))
+        return "(OUnset %d%%N %s)" % (op[1], cstr(op[2]))
     if k == "rmattr":
-        return "(ORemoveAttr %d %s)" % (op[1], cnat(op[2]))
+        return "(ORemoveAttr %d%%N %s)" % (op[1], cnat(op[2]))
     if k == "settext":
-        return "(OSetText %d %s)" % (op[1], c_ostr(op[2]))
+        return "(OSetText %d%%N %s)" % (op[1], c_ostr(op[2]))
     if k == "rename":
-        return "(ORename %d %s)" % (op[1], cstr(op[2]))
+        return "(ORename %d%%N %s)" % (op[1], cstr(op[2]))
     if k == "setprefix":
-        return "(OSetPrefix %d %s %s)" % (op[1], c_ostr(op[2]), c_ostr(op[3]))
+        return "(OSetPrefix %d%%N %s %s)" % (op[1], c_ostr(op[2]), c_ostr(op[3]))
     if k == "addprefix":
-        return "(OAddPrefix %d %s %s)" % (op[1], cstr(op[2]), cstr(op[3]))
+        return "(OAddPrefix %d%%N %s %s)" % (op[1], cstr(op[2]), cstr(op[3]))
     if k == "clearprefix":
-        return "(OClearPrefix %d %s)" % (op[1], cstr(op[2]))
+        return "(OClearPrefix %d%%N %s)" % (op[1], cstr(op[2]))
     if k == "clone":
-        return "(OClone %d)" % op[1]
+        return "(OClone %d%%N)" % op[1]
     if k == "getChild":
-        return "(OGetChild %d %s %s)" % (op[1], cstr(op[2]), c_nsq(op[3]))
+        return "(OGetChild %d%%N %s %s)" % (op[1], cstr(op[2]), c_nsq(op[3]))
     if k == "getChildren":
-        return "(OGetChildren %d %s %s)" % (op[1], c_ostr(op[2]), c_nsq(op[3]))
+        return "(OGetChildren %d%%N %s %s)" % (op[1], c_ostr(op[2]), c_nsq(op[3]))
     if k == "childAtPath":
-        return "(OChildAtPath %d %s)" % (op[1], cstr(op[2]))
+        return "(OChildAtPath %d%%N %s)" % (op[1], cstr(op[2]))
     if k == "childrenAtPath":
-        return "(OChildrenAtPath %d %s)" % (op[1], cstr(op[2]))
+        return "(OChildrenAtPath %d%%N %s)" % (op[1], cstr(op[2]))
     if k == "getAttr":
-        return "(OGetAttr %d %s %s)" % (op[1], cstr(op[2]), c_nsq(op[3]))
+        return "(OGetAttr %d%%N %s %s)" % (op[1], cstr(op[2]), c_nsq(op[3]))
     if k == "namespace":
-        return "(ONamespace %d)" % op[1]
+        return "(ONamespace %d%%N)" % op[1]
     raise AssertionError(op)
 
 
@@ -379,15 +417,16 @@ def c_cell(c):
 
 
 def c_obs(ob):
-    res, cells, pl = ob
-    d = "[" + ";".join("(%d,%s)" % (i, c_cell(c)) for i, c in enumerate(cells)) + "]" if cells else "[]"
-    p = "[" + ";".join("(%d,%s)" % (i, cstr(s)) for i, s in pl) + "]" if pl else "[]"
-    return "(mkO %s %s %s)" % (c_res(res), d, p)
+    res, count, cells, roots, pl = ob
+    d = "[" + ";".join("(%d%%N,%s)" % (i, c_cell(c)) for i, c in cells) + "]" if cells else "[]"
+    p = "[" + ";".join("(%d%%N,%s)" % (i, cstr(s)) for i, s in pl) + "]" if pl else "[]"
+    return "(mkO %s %d%%N %s %s %s)" % (c_res(res), count, d, c_ids(roots), p)
 
 
 def c_case(quirk, setup, steps, obs):
     su = "[" + ";".join(c_op(o) for o in setup) + "]" if setup else "[]"
-    st = "[" + ";".join("(%s,%s)" % (c_op(o), c_obs(ob)) for o, ob in zip(steps, obs)) + "]" if steps else "[]"
+    st = ("[" + ";".join("(%s,%s)" % (c_op(o), c_obs(ob)) for o, ob in zip(steps, deltas(obs))) + "]"
+          if steps else "[]")
     return "(mkCase %s %s %s)" % (cbool(quirk), su, st)
 
 
@@ -492,11 +531,11 @@ class Picker(object):
             return self.rng.choice(withk)
         return self.anynode()
 
-    def pick(self):
+    def pick(self, exotic=False):
         rng, reg = self.rng, self.reg
         o = reg.objs
         for _ in range(30):
-            r = rng.random()
+            r = rng.random() * 0.93 if not exotic else 0.99
             op = None
             att = self.attached()
             roots = self.rootsl()
@@ -627,11 +666,18 @@ def gen_random_history(rng, length):
         apply_op(reg, op)
     pk = Picker(rng, reg)
     steps = []
-    for _ in range(length):
-        op = pk.pick()
+    # at most one edit outside the reference's domain, near the end (what follows it is
+    # compared with the model only)
+    exotic_at = length - 3 if rng.random() < 0.5 else -1
+    for k in range(length):
+        op = pk.pick(exotic=(k == exotic_at))
         if op is None or not valid_ids(reg, op) or makes_cycle(reg, op):
             break
+        if op[0] in ("clone", "prune") and expanded_size(reg) > 120:
+            break
         apply_op(reg, op)
+        if expanded_size(reg) > 300:
+            break
         steps.append(op)
     return setup, steps
 
@@ -701,7 +747,7 @@ def gen_exhaustive(ck):
 
 def generate(ck):
     rng = ck.rng
-    groups = gen_exhaustive(ck)
+    groups = []
     if ck.tier == "thorough":
         plan = [(25, 1500), (12, 1500), (5, 1500)]
     else:
@@ -710,7 +756,7 @@ def generate(ck):
         for _ in range(cnt):
             setup, steps = gen_random_history(rng, length)
             groups.append(("random-%d" % length, setup, steps))
-    return groups
+    return groups + gen_exhaustive(ck)
 
 
 # ---------------------------------------------------------------------------
@@ -971,7 +1017,7 @@ def run(ck):
         ck.sample({"group": grp, "setup_ops": len(setup), "steps": [list(o) for o in done[:8]],
                    "plain_after_last_step": obs[-1][2][:2]})
     preds = ["c19_agrees", "c19_spec_ok",
-             "(fun c => Nat.eqb (c19_covered c) (length (k_steps c)))"]
+             "c19_inside"]
     res = ck.run_cases("cases", PRE, "ccase", terms, preds, shard=60)
     bad_model, bad_spec = set(res[preds[0]]), set(res[preds[1]])
     ck.extra["histories_fully_inside_the_reference_domain"] = len(terms) - len(res[preds[2]])
@@ -999,7 +1045,7 @@ def run(ck):
                "also samples lengths 3 and 4; (2) random trees of depth <= 4, <= 14 nodes, sibling names drawn "
                "from a,a,a,b,b,c, prefixes p/q bound to u1..u3 at different levels, default namespaces, "
                "attributes and text, plus parentless spare nodes, x random histories of length 25, 12 and 5 "
-               "over all 24 operations (6% deliberately outside the reference's domain).  distinct = distinct "
+               "over all 24 operations (half of the histories contain, near the end, one edit deliberately outside the reference's domain).  distinct = distinct "
                "(setup, history); non-trivial = the history contains at least one edit")
     ck.exhaustive = False
     if not proof_ok:
